@@ -40,12 +40,12 @@ type ldoc struct {
 }
 
 type rdoc struct {
-	name   string
-	create bool
-	value  string
-	parent *rdoc
-	ftype  string
-	fusers []string
+	name    string
+	create  bool
+	value   string
+	parent  *rdoc
+	ftype   string
+	fusers  []string
 	fgroups []string
 }
 
